@@ -44,7 +44,15 @@ Section Faithful.
 
   Hypothesis LF : log_faithful.
 
-  Notation trace' := (trace (fun _ => true) (fun _ => false)).
+  Notation trace' := (trace_nc (fun _ => true) (fun _ => false)).
+
+  (** a faithful log has no copy entries, so the specification walk is the copy-free one *)
+  Lemma faithful_no_copy e : In e log -> is_copy e = false.
+  Proof.
+    intro Hin. unfold is_copy.
+    destruct (lf_entry LF e Hin) as [(Hs & _)|[(Hs & _)|[([Hs|Hs] & _)|(Hs & _)]]]; unfold is_st in Hs; rewrite Hs; reflexivity.
+  Qed.
+
 
   (** ** shape of a trace: its last entry ends at the path; either the path is not touched afterwards (then k = 0), or the
       next entry touching it is a rename of another file onto it (the record is shadowed) *)
@@ -55,7 +63,7 @@ Section Faithful.
        (exists n1 x n2, newer = n1 ++ x :: n2 /\ le_dst x = p /\ le_src x <> p /\ forall y, In y n2 -> ~ touches y p)).
   Proof.
     induction rl as [|e r IH]; intros p k Hne; [exfalso; apply Hne; reflexivity|].
-    cbn [trace] in *. unfold live in *. simpl in *.
+    cbn [trace_nc] in *. unfold live in *. simpl in *.
     destruct (String.eqb (le_dst e) p) eqn:Ed.
     - apply String.eqb_eq in Ed. destruct k as [|k'].
       + exists [], e, r. simpl. repeat split; auto. all: try (left; split; auto; intros x []).
@@ -85,7 +93,7 @@ Section Faithful.
     exists newer older, rl = newer ++ e1 :: older /\ trace' older (le_src e1) 0 = [].
   Proof.
     induction rl as [|e r IH]; intros p k e1 rest H; [discriminate|].
-    cbn [trace] in H. unfold live in H. simpl in H.
+    cbn [trace_nc] in H. unfold live in H. simpl in H.
     destruct (String.eqb (le_dst e) p) eqn:Ed.
     - destruct k as [|k'].
       + destruct (trace' r (le_src e) 0) as [|x xs] eqn:T.
@@ -104,7 +112,7 @@ Section Faithful.
       le_src e' = p /\ le_dst e' <> p.
   Proof.
     induction rl as [|e r IH]; intros p H; [left; intros x []|].
-    cbn [trace] in H. unfold live in H. simpl in H.
+    cbn [trace_nc] in H. unfold live in H. simpl in H.
     destruct (String.eqb (le_dst e) p) eqn:Ed.
     - destruct (trace' r (le_src e) 0); discriminate.
     - apply String.eqb_neq in Ed. destruct (String.eqb (le_src e) p) eqn:Es.
@@ -274,6 +282,8 @@ Section Faithful.
   Proof.
     intros Hget.
     pose proof (fold_refines_trace type_at (fun _ => true) (fun _ => false) log p k) as Hr. unfold fold in Hr. rewrite Hr in Hget. clear Hr.
+    rewrite (trace_nocopy (fun _ => true) (fun _ => false) (rev log)) in Hget
+      by (intros x Hx; apply faithful_no_copy; apply in_rev; exact Hx).
     destruct (trace' (rev log) p k) as [|e1 rest] eqn:T; [discriminate|].
     assert (Hne : trace' (rev log) p k <> []) by (rewrite T; discriminate).
     destruct (trace_last _ _ _ Hne) as (newer & em & older & E & Hd & Ht & Hcase).
